@@ -37,6 +37,7 @@ func init() {
 	Props["C01"] = PropDef{
 		Gen: func(t *rapid.T, thorough bool) *Script {
 			o := mixedOpts(thorough)
+			o.Overhead = true
 			if chance(t, "faultfree", 40) {
 				o.Faults, o.BindFailures = false, false
 				return GenScript(t, "C01", "mixed-faultfree", o)
@@ -51,6 +52,7 @@ func init() {
 	Props["C14"] = PropDef{
 		Gen: func(t *rapid.T, thorough bool) *Script {
 			o := mixedOpts(thorough)
+			o.Overhead = true
 			if chance(t, "faultfree", 50) {
 				o.Faults, o.BindFailures = false, false
 				return GenScript(t, "C14", "mixed-faultfree", o)
